@@ -59,8 +59,9 @@ class Built:
         return self.tree if i == 0 else self.nodes[i]
 
 
-def build(st: dict, fl: Flavour, mk=1, name=None) -> Built:
-    """Create a real tree for abstract state `st` (ids must be in pre-order, all live)."""
+def build(st: dict, fl: Flavour, mk=1, name=None, node_ids=None) -> Built:
+    """Create a real tree for abstract state `st` (ids must be in pre-order, all live).
+    node_ids: optional {model id: explicit node_id} (custom node keys)"""
     st = norm_state(st)
     tree = fl.new_tree(name)
     n = st["n"]
@@ -74,6 +75,8 @@ def build(st: dict, fl: Flavour, mk=1, name=None) -> Built:
             kw["data_id"] = fl.real_did(mdid)
         if fl.typed:
             kw["kind"] = fl.kind(st["knd"][i - 1])
+        if node_ids and i in node_ids:
+            kw["node_id"] = node_ids[i]
         node = parent_obj.add(fl.data(d), **kw)
         nodes[i] = node
         m = st["meta"][i - 1] if st.get("meta") else []
